@@ -670,7 +670,7 @@ class Explorer:
         use_alarm = self.path_seconds and hasattr(signal, "SIGPROF")
         if use_alarm:  # CPU-time budget of this process (robust against a loaded machine)
             old = signal.signal(signal.SIGPROF, self._alarm)
-            signal.setitimer(signal.ITIMER_PROF, self.path_seconds)
+            signal.setitimer(signal.ITIMER_PROF, self.path_seconds, 0.5)  # re-fires: a raise inside a C callback can be swallowed
         status = "completed"
         try:
             try:
